@@ -243,11 +243,13 @@ for _nb, _tier in ((2, "quick"), (3, "thorough")):
         "two streams in one process, levels 1..9 each, first stream 1..%d blocks with arbitrary CRCs arriving at the reorder queue in any rotation, second stream empty or one block" % _nb,
         ["src/compress.c:init", "src/compress.c:uninit", "src/compress.c:write_header", "src/compress.c:write_trailer", "src/compress.c:can_reorder", "src/compress.c:do_reorder", "src/encode.h:combine_crc"],
         ["blocks_arrive_out_of_order", "second_stream_written", "empty_second_stream"], real_heap=True, defines=["-DNBLK=%d" % _nb], to=1800)
-RGP = {"C11": "quick", "C13": "quick", "C03": "quick"}
+RGP = {"C11": "quick", "C13": "quick", "C03": "quick", "C04": "quick"}
 RGB = "worker count symbolic 1..3 (slot totals 2w / 2w+2), all counters, queue sizes and queue contents arbitrary subject to INV; one task execution with re-havoc at every lock release"
 comp_ob("rg_transmit", "h_rg_transmit", RGP, RGB, ["src/compress.c:can_transmit", "src/compress.c:do_transmit"], ["transmit_enabled", "transmit_on_reserved_slot"])
 comp_ob("rg_reorder", "h_rg_reorder", RGP, RGB, ["src/compress.c:can_reorder", "src/compress.c:do_reorder"], ["reorder_enabled"])
 comp_ob("rg_collect", "h_rg_collect", RGP, RGB, ["src/compress.c:can_collect", "src/compress.c:do_collect"], ["collect_enabled", "input_block_split"])
+comp_ob("rg_collect_seq", "h_rg_collect_seq", {"C11": "quick", "C13": "quick", "C04": "quick", "C03": "quick"}, RGB + "; sequential mode (-u): with or without a block left unfinished by the previous piece, block becoming full or not",
+        ["src/compress.c:can_collect_seq", "src/compress.c:do_collect_seq"], ["collect_seq_enabled", "block_continued_from_previous_piece", "block_stays_unfinished"])
 comp_ob("rg_write_complete", "h_rg_write_complete", RGP, RGB, ["src/compress.c:on_write_complete"], ["write_completes"])
 comp_ob("rg_input_avail", "h_rg_input_avail", RGP, RGB, ["src/compress.c:on_input_avail"], ["input_block_arrives"])
 comp_ob("terminate_guard", "h_terminate_guard", {"C11": "quick"}, RGB, ["src/compress.c:can_terminate"], ["terminates"])
